@@ -420,7 +420,7 @@ fn gen_case(r: &mut Rng, seed: u64, idx: u64, toks: &mut HashMap<String, u64>) -
             } else { match r.below(5) { 0 | 1 => Mode::Before, 2 | 3 => Mode::After, _ => Mode::Alternate } };
             if plan.iter().any(|p| p.idx == i && p.mode == mode) { continue; }
             let structural = op.is_blockish() || matches!(op, Op::End);
-            if mode == Mode::Alternate && structural { continue; }
+            if mode == Mode::Alternate && (structural || i < 2) { continue; }   // never replace the fingerprint constant
             plan.push(Probe { idx: i, mode, ops: gen_probe_ops(r), tg: ptag(r) });
         }
         if special_ok && r.chance(1, 4) { entry = Some((gen_probe_ops(r), ptag(r))); }
